@@ -235,7 +235,11 @@ def behave(node, kwargs, attempt, run):
         # nested (inner) recurrent destination: its start node ignores additional_data, so every inner
         # iteration has identical arguments; it asks for another iteration until it has been invoked
         # `iter_by_attempt` times with these arguments (the attempt counter is keyed by arguments)
-        if attempt < plan['iter_by_attempt']:
+        n_iter = plan['iter_by_attempt']
+        if 'iter_by_attempt_outer' in plan and find_ad(kwargs, plan['outer_start']) is not None:
+            # the inner subgraph behaves differently (e.g. is exhausted) only in a re-iteration of the outer one
+            n_iter = plan['iter_by_attempt_outer']
+        if attempt < n_iter:
             if 'falsy_ad' in plan:
                 return ('next', plan['falsy_ad'][0])       # a falsy payload is a legitimate payload
             return ('next', ('AD', node['id'], attempt + 1, run))
